@@ -87,6 +87,15 @@ class DomName:
         return isinstance(o, DomName) and o.n == self.n
 
 
+class _DomCtor:
+    def __init__(self, name):
+        self.name = name
+
+    def __getitem__(self, args):
+        args = args if isinstance(args, tuple) else (args,)
+        return DomName(f"{self.name}[{', '.join(a.n if isinstance(a, DomName) else str(a) for a in args)}]")
+
+
 def base_namespace(engine, universe):
     import infinity
 
@@ -110,6 +119,8 @@ def base_namespace(engine, universe):
     ns["exists"] = lambda f, *d, **kw: universe.exists(f, *[x.n if isinstance(x, DomName) else x for x in d])
     for sortname in list(engine.tenv.refs) + ["Int", "Bool"] + list(engine.tenv.enums) + list(engine.tenv.records):
         ns.setdefault(sortname, DomName(sortname))
+    for ctor in ("Map", "Set", "Seq"):  # compound quantifier domains: Universe.domains["Map[Vtx, Set[Vtx]]"]
+        ns.setdefault(ctor, _DomCtor(ctor))
     return ns
 
 
